@@ -344,8 +344,12 @@ def step (okf : Nat) (s : State) : Action → Option State
       | none => none
       | some i => match m.unit.getD i none with
         | none => none
-        | some p => some { s with apps := setApp s.apps app { m with unit := m.unit.set i none },
-                                  used := s.used.filter (· ≠ p) }
+        | some p =>
+          -- `_used_physical_qubit_addresses.remove(p)`: KeyError when `p` is not in the set
+          if s.used.contains p then
+            some { s with apps := setApp s.apps app { m with unit := m.unit.set i none },
+                          used := s.used.filter (· ≠ p) }
+          else none
   | .create sub remote purpose isK number qAddr resAddr => withApp s sub fun _ m =>
       if createOk m isK number qAddr then
         some (enqueue s ⟨remote, purpose, true⟩ sub resAddr qAddr number)
